@@ -51,7 +51,7 @@ Proof.
   - reflexivity.
   - cbn [length Z.of_nat Z.eqb Pos.of_succ_nat Pos.eqb]. change (list_get [w] 0) with (Ok w). cbn [res_bind].
     change ([61] : str) with s_eq.
-    destruct (str_split w s_eq 2) as [parts|t]; cbn [res_bind res_catch].
+    destruct (str_split w s_eq 2) as [parts|t]; cbn [res_bind res_catch_tags].
     + destruct parts as [|k [|v [|x parts]]]; reflexivity.
     + destruct (zmem t [23; 24]); reflexivity.
   - replace (Z.of_nat (length (w :: w2 :: r)) =? 1) with false; [reflexivity|].
